@@ -340,13 +340,30 @@ impl GraphEngine {
 
     // T203: HNSW Public API
     pub fn insert_vector(&self, id: InternalNodeId, vector: Vec<f32>) -> Result<()> {
+        // Lock order as everywhere else: catalog, pager, vector index.
+        vlock!("index_catalog", self.index_catalog);
+        let mut catalog = self.index_catalog.lock().unwrap();
+        let _vh_catalog = vheld!("index_catalog");
         vwrite!("pager", self.pager);
         let mut pager = self.pager.write().unwrap();
         let _vh9 = vheld!("pager");
         vlock!("vector_index", self.vector_index);
         let mut idx = self.vector_index.lock().unwrap();
         let _vh10 = vheld!("vector_index");
-        idx.insert(&mut *pager, id, vector)
+        idx.insert(&mut *pager, id, vector)?;
+        // The storage trees grow; when a root splits the catalog must follow, or the next
+        // open starts from the old root page and sees only its share of the vectors.
+        for (name, root) in [
+            ("__sys_hnsw_vec", idx.vector_store().root()),
+            ("__sys_hnsw_graph", idx.graph_store().root()),
+        ] {
+            if catalog.get(name).is_some_and(|def| def.root != root) {
+                // Write barrier: the new root page must be durable before the catalog names it.
+                pager.sync()?;
+                catalog.update_root(&mut pager, name, root)?;
+            }
+        }
+        Ok(())
     }
 
     pub fn search_vector(&self, query: &[f32], k: usize) -> Result<Vec<(InternalNodeId, f32)>> {
